@@ -2,3 +2,24 @@ check('C12', 'proof',
       'All operators of kyupy.logic (array and bit-parallel form, arity 1-4, out= wrappers) are proved from their current source text against the value-level algebra of the property for all operand values, lanes and row aliasings; Boolean restriction and De Morgan are lemmas over the spec. An exhaustive enumeration on the real functions runs alongside as encoding cross-check.',
       'numpy element-wise/view semantics assumed (one representative element stands for all indices); operands hold 3-bit codes; spec.algebra is the oracle; pyvc + z3 trusted',
       'contract-based deductive verification: ast->z3 VC generation from the real source, sidecar contracts, z3 discharge', 'DESIGN.md 5-C12')
+
+check('C01', 'other',
+      'Proved (unbounded): LUT constants = truth tables of their names, kind_prefixes family selection, and the 2-valued evaluation loop in both copies computes the fold of the per-op spec step for any op list and memory map. Bounded: translation/assign/capture/cycle and netlist-level composition on a stated circuit space against a gate-by-gate oracle.',
+      'requires of the loop contract, SimOps translation, numpy advanced indexing and the composition to netlist level are bounded evidence only; numpy element-wise semantics assumed',
+      'contract-based deductive verification (ast->z3 VCs with loop invariant over the op list) + bounded runtime-contract stand-in', 'DESIGN.md 5-C01')
+check('C02', 'other',
+      'Proved (unbounded): 4-/8-valued evaluation loops against the callee contracts of the bit-parallel operators (C12), per-primitive X-soundness and 8v/2v lemmas over the spec. Bounded: real LogicSim(m=4,8) vs netlist oracle.',
+      'lifting of the per-primitive lemmas to circuits is a paper induction; translation and composition are bounded evidence only',
+      'contract-based deductive verification (modular calls, loop invariant) + finite lemmas in z3 + bounded stand-in', 'DESIGN.md 5-C02')
+check('C08', 'other',
+      'Bounded today: HeapInv + abstract view on all alloc/free histories up to a stated length on the real Heap; MapValid (token simulation of liveness, aliases, capacities, c_len) on real SimOps instances. Heap.alloc/free under pyvc contract: see evidence (counted only when discharged).',
+      'bounded evidence for the memory map; library contracts of bisect/insort assumed',
+      'contract-based: representation invariant + abstract-view postconditions (pyvc) with exhaustive-history bounded stand-in', 'DESIGN.md 5-C08')
+check('C16', 'other',
+      'Proved (unbounded): call-site obligations of inject_cb in all three loops with a ghost call log (exactly once per evaluated line, Line identity, writable view of the fresh row, downstream ops read what the callback wrote). Bounded: behavioural equivalence with an overridden line vs netlist oracle.',
+      'requires of the loop contract; callback writes only through its view; netlist-level meaning bounded only',
+      'contract-based deductive verification with ghost call log + bounded stand-in', 'DESIGN.md 5-C16')
+check('C17', 'exploration',
+      'Runtime contracts of the traversal generators and name lookups on a stated bounded circuit/naming space (exhaustive small family + seeded).',
+      'bounded only (generators over an object graph are outside the VC generator); oracle = spec-side graph search',
+      'bounded runtime-contract stand-in (no deductive part within reach)', 'DESIGN.md 5-C17')
